@@ -87,7 +87,10 @@ verify_attributes(Var, Value, Goals) :-
 % ```
 dif(X, Y) :-
     X \== Y,
-    (   X \= Y -> true
+    % test unifiability on a copy without attributes: unifying X and Y
+    % themselves would wake the goals suspended on their variables
+    '$copy_term_without_attr_vars'(X-Y, X1-Y1),
+    (   X1 \= Y1 -> true
     ;   term_variables(dif(X,Y), Vars),
         dif_set_variables(Vars, X, Y)
     ).
